@@ -265,7 +265,47 @@ func lyingChain(rt *rapid.T) ([]byte, string, string) {
 	return out, fmt.Sprintf("%s lie=%d %v", kind, lie, desc), kind
 }
 
+// oversizeStrings: Exif blocks whose directories consist of string tags that each declare more bytes than the reader's
+// window holds (4 KiB), many per directory, one block per APP1 segment, many segments: whatever the decoder does with
+// a value it cannot read, it must not copy a window per tag.
+func oversizeStrings(rt *rapid.T) ([]byte, string) {
+	nseg := rapid.SampledFrom([]int{1, 8, 40, 200}).Draw(rt, "segments")
+	ntags := rapid.SampledFrom([]int{1, 10, 80, 120}).Draw(rt, "tags")
+	count := uint32(rapid.SampledFrom([]int{4097, 4200, 5000, 60000, 1 << 20}).Draw(rt, "count"))
+	present := rapid.SampledFrom([]int{64, 4400, 4400, 6000}).Draw(rt, "present") // bytes that really follow the directory
+	dup := rapid.Bool().Draw(rt, "duplicate-ids")
+	ids := []uint16{0x010e, 0x010f, 0x0110, 0x0131, 0x013b, 0x8298}
+	block := func() []byte {
+		t := []byte("II*\x00\x08\x00\x00\x00")
+		t = binary.LittleEndian.AppendUint16(t, uint16(ntags))
+		after := uint32(8 + 2 + 12*ntags + 4)
+		for i := 0; i < ntags; i++ {
+			id := ids[i%len(ids)]
+			if !dup {
+				id = uint16(0x010e + i)
+			}
+			t = binary.LittleEndian.AppendUint16(t, id)
+			t = binary.LittleEndian.AppendUint16(t, 2)
+			t = binary.LittleEndian.AppendUint32(t, count)
+			t = binary.LittleEndian.AppendUint32(t, after+uint32(i)) // strictly increasing: a forward-only reader accepts every one
+		}
+		t = binary.LittleEndian.AppendUint32(t, 0)
+		return append(t, bytes.Repeat([]byte{'A'}, present)...)
+	}
+	var segs []gen.Seg
+	for i := 0; i < nseg; i++ {
+		segs = append(segs, gen.Seg{Marker: 0xE1, Payload: append([]byte(gen.ExifPrefix), block()...), Kind: "exif"})
+	}
+	segs = append(segs, gen.DQT())
+	tail := append([]byte{0xFF, 0xDA, 0x00, 0x08, 0x01, 0x01, 0x00, 0x00, 0x3F, 0x00}, bytes.Repeat([]byte{'B'}, 8000)...)
+	return gen.JPEGStream(segs, tail), fmt.Sprintf("%d segments x %d string tags of count %d, %d bytes present (duplicate ids %v)", nseg, ntags, count, present, dup)
+}
+
 func genCase(rt *rapid.T) Case {
+	if gen.Chance(rt, "oversize-strings?", 0.06) {
+		data, origin := oversizeStrings(rt)
+		return Case{Entry: rapid.SampledFrom([]string{"Decode", "DecodeJPEG", "ScanJPEG"}).Draw(rt, "entry"), Input: data, Origin: "oversize-strings", Ops: []string{origin}, Big: true}
+	}
 	if gen.Chance(rt, "lyingchain?", 0.08) {
 		data, origin, kind := lyingChain(rt)
 		entries := []string{"DecodeCR3", "Decode", "BMFF"}
